@@ -198,10 +198,39 @@ def guard_root(an, place, depth=0):
     return None
 
 
-def cmp_relation(an, r, switch_blk, arm_label):
+def cmp_relation(an, r, switch_blk, arm_label, _depth=0):
     """normalised relation between SIZE and MAX that holds on `arm_label` of a bool switch.
     returns one of 'size<=max','size<max','size>max','size>=max','size==max','size!=max' or None"""
     t = switch_blk.term
+    if t.kind == 'switch' and t.j.get('dty') != 'bool' and t.j.get('variants') and 'on' in t.j and not t.j['on'].get('pr') and _depth < 2:
+        # a decision encoded in a private enum (`enum Admission { Granted, Surplus }`): the arm for variant V stands for the
+        # relation under which V - and only V - is constructed
+        return _encoded_relation(an, r, t.j['on']['l'], [arm_label], _depth)
+    if t.kind == 'switch' and t.j.get('dty') == 'bool' and _depth < 2 and t.discr.kind != 'const' and not t.discr.place.proj:
+        # the same decision tested with `==` / `!=` against a constant variant (derived PartialEq)
+        d0 = an.single_def(t.discr.place.local)
+        hops = 0
+        while d0 and d0[0] == 'stmt' and d0[3].rv.kind == 'use' and d0[3].rv.ops[0].kind != 'const' and not d0[3].rv.ops[0].place.proj and hops < 4:
+            d0 = an.single_def(d0[3].rv.ops[0].place.local); hops += 1
+        if d0 and d0[0] == 'call' and len(d0[3].args) == 2 and any(n.endswith('PartialEq>::eq') or n.endswith('PartialEq>::ne') or n.endswith('PartialEq::eq') or n.endswith('PartialEq::ne') for n in d0[3].callee_names()):
+            is_ne = any(n.endswith('::ne') for n in d0[3].callee_names())
+            ops = [_deref_arg(an, a) for a in d0[3].args]
+            def const_variant(o):
+                if o.kind == 'const' or o.place.proj:
+                    return None
+                ds = an.defs(o.place.local)
+                if len(ds) == 1 and ds[0][0] == 'stmt' and ds[0][3].rv.kind == 'agg' and ds[0][3].rv.j.get('variant') and not ds[0][3].rv.ops:
+                    return ds[0][3].rv.j['variant'], ds[0][3].rv.j.get('adt')
+                return None
+            cv = [const_variant(o) for o in ops]
+            if (cv[0] is None) != (cv[1] is None):
+                var, adt_ = cv[0] or cv[1]
+                subj = ops[1] if cv[0] else ops[0]
+                if subj.kind != 'const' and not subj.place.proj:
+                    want_equal = (arm_label == 'true') != is_ne
+                    if want_equal:
+                        return _encoded_relation(an, r, subj.place.local, [var], _depth)
+                    return _encoded_relation(an, r, subj.place.local, None, _depth, exclude=var)
     if t.kind != 'switch' or t.j.get('dty') != 'bool':
         return None
     neg = (arm_label == 'false')
@@ -235,6 +264,32 @@ def cmp_relation(an, r, switch_blk, arm_label):
     return None
 
 
+def _encoded_relation(an, r, local, variants, _depth, exclude=None):
+    """the relation between SIZE and MAX under which `local` (a value of a private decision enum, followed through plain
+    moves) is constructed as one of `variants` (or as anything but `exclude`)"""
+    l_ = local
+    for _ in range(6):
+        ds_ = an.defs(l_)
+        if len(ds_) == 1 and ds_[0][0] == 'stmt' and ds_[0][3].rv.kind == 'use' and ds_[0][3].rv.ops[0].kind != 'const' and not ds_[0][3].rv.ops[0].place.proj:
+            l_ = ds_[0][3].rv.ops[0].place.local
+        else:
+            break
+    defs = an.defs(l_)
+    if not (defs and all(d[0] == 'stmt' and d[3].rv.kind == 'agg' and d[3].rv.j.get('variant') for d in defs)):
+        return None
+    if variants is not None:
+        mine = [d for d in defs if d[3].rv.j['variant'] in variants]
+    else:
+        mine = [d for d in defs if d[3].rv.j['variant'] != exclude]
+    rels = None
+    for d in mine:
+        rs = {x[0] for x in governing_relations(an, r, d[1], _depth + 1)}
+        rels = rs if rels is None else (rels & rs)
+    if rels and len(rels) == 1:
+        return (sorted(rels)[0], mine[0][1])
+    return None
+
+
 def field_of_operand(an, r, op, depth=0):
     """name of the SLOTS field an operand was copied from, or None"""
     if op.kind == 'const' or depth > 8:
@@ -251,14 +306,14 @@ def field_of_operand(an, r, op, depth=0):
     return None
 
 
-def governing_relations(an, r, bb):
+def governing_relations(an, r, bb, _depth=0):
     """relations between SIZE and MAX that are known to hold when bb executes:
-    for every bool switch that dominates bb with bb reachable from exactly one arm"""
+    for every bool switch (or switch on a private decision enum) that dominates bb with bb reachable from exactly one arm"""
     out = []
     doms = an.doms(('normal',)).get(bb) or ()
     for d in doms:
         blk = an.b.blocks[d]
-        if blk.term.kind != 'switch' or blk.term.j.get('dty') != 'bool':
+        if blk.term.kind != 'switch' or (blk.term.j.get('dty') != 'bool' and not blk.term.j.get('variants')):
             continue
         arms = blk.term.switch_arms()
         reach_by = []
@@ -266,7 +321,7 @@ def governing_relations(an, r, bb):
             if tgt == bb or bb in an.reach([tgt], ('normal',), avoid=[d]):
                 reach_by.append(lab)
         if len(reach_by) == 1:
-            rel = cmp_relation(an, r, blk, reach_by[0])
+            rel = cmp_relation(an, r, blk, reach_by[0], _depth)
             if rel:
                 out.append((rel[0], d, rel[1]))
     return out
